@@ -779,6 +779,20 @@ func main() {
 		}
 		return
 	}
+	if len(os.Args) == 4 && os.Args[1] == "ct" {
+		if err := runCT(os.Args[2], os.Args[3]); err != nil {
+			fmt.Fprintln(os.Stderr, "edrv:", err)
+			os.Exit(2)
+		}
+		return
+	}
+	if len(os.Args) == 5 && os.Args[1] == "conc" {
+		if err := runConc(os.Args[2], os.Args[3], os.Args[4]); err != nil {
+			fmt.Fprintln(os.Stderr, "edrv:", err)
+			os.Exit(2)
+		}
+		return
+	}
 	fmt.Fprintln(os.Stderr, "usage: edrv run <programs.json> <trace.ndjson> | edrv selftest")
 	os.Exit(2)
 }
